@@ -65,6 +65,16 @@ def run_case(kind, payload):
             return outs[0]
         if kind == "docstring_parse":
             return canon_ir(cdd.docstring.parse.docstring(payload))
+        if kind in ("argparse_parse", "argparse_parse_setdefault"):
+            ir = cdd.argparse_function.parse.argparse_ast(ast.parse(payload).body[0])
+            return canon_ir(ir) + "\n" + to_code(cdd.class_.emit.class_(ir, emit_call=False, class_name="C"))
+        if kind == "function_parse_setdefault":
+            ir = cdd.function.parse.function(ast.parse(payload).body[0])
+            return canon_ir(ir) + "\n" + to_code(cdd.class_.emit.class_(ir, emit_call=False, class_name="C"))
+        if kind == "merge_all":
+            mod = ast.parse(payload)
+            cdd.shared.ast_utils.merge_assignment_lists(mod, "__all__")
+            return to_code(mod)
         ir = copy.deepcopy(payload)
         if kind == "class_emit":
             return to_code(cdd.class_.emit.class_(ir, emit_call=False, class_name="C"))
@@ -118,6 +128,33 @@ def cases(seed, n):
         kind = r.choice(["class_emit", "function_emit", "argparse_emit", "json_schema_emit", "docstring_emit_rest",
                          "docstring_emit_google", "docstring_emit_numpydoc", "infer_imports", "chain"])
         out.append((kind, ir))
+        # hand-written inputs with collections written as displays: choices as list / tuple / set, several __all__ lists with names that
+        # differ only in case, and (marked, a known order leak) defaults that are themselves set displays
+        if i % 3 == 1:
+            ms = r.sample(["'alpha'", "'beta'", "'gamma'", "'delta'", "'eps'", "'zeta'"], r.randint(2, 5))
+            o, c = r.choice(["[]", "()", "{}"])
+            ap = ('def set_cli_args(argument_parser):\n    """\n    Set CLI arguments\n\n    :param argument_parser: argument parser\n    :type argument_parser: ```ArgumentParser```\n\n'
+                  '    :return: argument_parser\n    :rtype: ```ArgumentParser```\n    """\n    argument_parser.description = "A tool"\n'
+                  '    argument_parser.add_argument("--mode", choices=%s%s%s, default=%s, help="the mode")\n'
+                  '    argument_parser.add_argument("--count", type=int, default=3, help="a count")\n    return argument_parser\n' % (o, ", ".join(ms), c, ms[0]))
+            out.append(("argparse_parse", ap))
+            pool = ["Config", "config", "Model", "model", "Integer", "INTEGER", "run", "Run", "alpha", "beta", "Zeta"]
+            a1, a2 = r.sample(pool, r.randint(2, 5)), r.sample(pool, r.randint(1, 4))
+            out.append(("merge_all", "__all__ = %r\nx = 1\n__all__ = %r\n" % (a1, a2)))
+        if i % 10 == 7:
+            ms = r.sample(['"alpha"', '"beta"', '"gamma"', '"delta"'], r.randint(2, 4))
+            out.append(("function_parse_setdefault", 'def f(a: set = {%s}, b=("x", "y")):\n    """\n    S.\n\n    :param a: the set\n    :param b: t\n    """\n    return None\n' % ", ".join(ms)))
+        # a pair of unrelated inputs that mention the same, otherwise unused, user-defined type name: first as a scalar column type, then as
+        # the right-hand member of a Union; in history mode the two run in either order and interleaved with other calls
+        if i % 2 == 1:
+            from collections import OrderedDict as _OD
+
+            u_i = "Entity%d" % i
+            k_sql = r.choice(["sqlalchemy", "sqlalchemy_table", "sqlalchemy_hybrid"])
+            out.append((k_sql, {"name": "T", "doc": "A table.", "returns": None, "type": "static", "params": _OD([
+                ("id", {"typ": "int", "doc": "[PK] the id"}), ("owner", {"typ": u_i, "doc": "a reference"})])}))
+            out.append((r.choice(["sqlalchemy", "sqlalchemy_table", "sqlalchemy_hybrid"]), {"name": "T", "doc": "A table.", "returns": None, "type": "static", "params": _OD([
+                ("id", {"typ": "int", "doc": "[PK] the id"}), ("recipient", {"typ": r.choice(["Union[int, %s]", "Optional[Union[int, %s]]"]) % u_i, "doc": "a reference"})])}))
         # user-defined (unknown) type names shared between unrelated inputs: module-level tables must not learn from earlier calls
         names = ["Customer", "Order", "Shipment"]
         if i % 2 == 0:
